@@ -481,6 +481,34 @@ func (s *appState) envOp(d *driver, f []string) (out string) {
 		p.ReceiveEnabled = f[1] == "1"
 		a.TransferKeeper.SetParams(ctx, p)
 		return "ok"
+	case "role":
+		// role <module.role> <hex(address string)>: appoint the holder of a role of another module
+		raw, err := hex.DecodeString(f[2])
+		if err != nil {
+			return "bad-op"
+		}
+		who := string(raw)
+		switch f[1] {
+		case "cctp.owner":
+			a.CCTPKeeper.SetOwner(ctx, who)
+		case "cctp.pauser":
+			a.CCTPKeeper.SetPauser(ctx, who)
+		case "cctp.attestermanager":
+			a.CCTPKeeper.SetAttesterManager(ctx, who)
+		case "cctp.tokencontroller":
+			a.CCTPKeeper.SetTokenController(ctx, who)
+		case "ftf.owner":
+			a.FTFKeeper.SetOwner(ctx, ftftypes.Owner{Address: who})
+		case "ftf.pauser":
+			a.FTFKeeper.SetPauser(ctx, ftftypes.Pauser{Address: who})
+		case "ftf.blacklister":
+			a.FTFKeeper.SetBlacklister(ctx, ftftypes.Blacklister{Address: who})
+		case "ftf.masterminter":
+			a.FTFKeeper.SetMasterMinter(ctx, ftftypes.MasterMinter{Address: who})
+		default:
+			return "bad-op"
+		}
+		return "ok"
 	case "hyp":
 		return s.hypOp(d, f[1:])
 	}
